@@ -202,6 +202,13 @@ theorem C01_source_count_bump (n : Nat) :
 example :
     Generated.anySkel.run [.f, .t, .t] = .selected 1 ∧ Generated.anySkel.run [.f, .e, .t] = .patErr 1 ∧
     Generated.anySkel.run [.f, .f] = .nothing := by decide
+/-- non-vacuity: the translated `match_inputs` arms on concrete inputs (no matcher; matcher accepting without a reporter;
+    matcher rejecting with one; matcher panicking) -/
+example :
+    miRun Generated.matchInputsArms false true none = some .e ∧
+    miRun Generated.matchInputsArms true false (some true) = some .t ∧
+    miRun Generated.matchInputsArms true true (some false) = some .f ∧
+    miRun Generated.matchInputsArms true true none = some .p := by decide
 end Source
 
 end Unimock
